@@ -157,8 +157,10 @@ impl<'a> fmt::Display for AtPrec<'a> {
 fn write_ident(fmt: &mut fmt::Formatter<'_>, name: &str) -> fmt::Result {
     use crate::parsing::text_query::{Token, TokenIterator};
     let mut tokens = TokenIterator::new(name);
+    // (a name that starts with `>` would turn a minus sign before it into `->`)
     let plain = matches!(tokens.next(), Some(Token::Ident(ref s)) if s == name)
-        && matches!(tokens.next(), Some(Token::Eof));
+        && matches!(tokens.next(), Some(Token::Eof))
+        && !name.starts_with('>');
     if plain {
         return write!(fmt, "{}", name);
     }
